@@ -49,9 +49,9 @@ PROPS["C01"] = {
             {"run": "^TestCMP$", "checks": 32, "shards": 16, "timeout": 1500},
         ],
         "thorough": [
-            {"run": "^TestFrost$", "checks": 60000, "shards": 6},
+            {"run": "^TestFrost$", "checks": 30000, "shards": 6},
             {"run": "^TestDoerner$", "checks": 4000, "shards": 4},
-            {"run": "^TestCMP$", "checks": 640, "shards": 16, "timeout": 7000},
+            {"run": "^TestCMP$", "checks": 480, "shards": 16, "timeout": 7000},
         ],
     },
 }
@@ -210,10 +210,10 @@ PROPS["C12"] = {
             {"run": "^TestMtA$", "checks": 96, "shards": 6},
         ],
         "thorough": [
-            {"run": "^TestEncDec$", "checks": 16000, "shards": 4},
-            {"run": "^TestHomomorphic$", "checks": 16000, "shards": 4},
+            {"run": "^TestEncDec$", "checks": 12000, "shards": 8},
+            {"run": "^TestHomomorphic$", "checks": 12000, "shards": 8},
             {"run": "^TestValidate$", "checks": 100000, "shards": 2},
-            {"run": "^TestMtA$", "checks": 4000, "shards": 6},
+            {"run": "^TestMtA$", "checks": 3200, "shards": 8},
         ],
     },
 }
@@ -237,8 +237,8 @@ PROPS["C10"] = {
             {"run": "^TestCostly$", "checks": 320, "shards": 16},
         ],
         "thorough": [
-            {"run": "^TestCheap$", "checks": 48000, "shards": 16},
-            {"run": "^TestCostly$", "checks": 9600, "shards": 16, "timeout": 7000},
+            {"run": "^TestCheap$", "checks": 16000, "shards": 16},
+            {"run": "^TestCostly$", "checks": 3200, "shards": 16, "timeout": 7000},
         ],
     },
 }
@@ -290,7 +290,7 @@ PROPS["C14"] = {
         "thorough": [
             {"run": "^TestFrostDoerner$", "checks": 40000, "shards": 8},
             {"run": "^TestCMPDealt$", "checks": 6000, "shards": 4},
-            {"run": "^TestCMPReal$", "checks": 80, "shards": 4, "timeout": 7000},
+            {"run": "^TestCMPReal$", "checks": 80, "shards": 8, "timeout": 7000},
         ],
     },
 }
@@ -313,8 +313,8 @@ PROPS["C08"] = {
             {"run": "^TestCMP$", "checks": 6, "shards": 6, "timeout": 1500},
         ],
         "thorough": [
-            {"run": "^TestCheap$", "checks": 50000, "shards": 10},
-            {"run": "^TestCMP$", "checks": 150, "shards": 6, "timeout": 9000},
+            {"run": "^TestCheap$", "checks": 25000, "shards": 10},
+            {"run": "^TestCMP$", "checks": 160, "shards": 16, "timeout": 9000},
         ],
     },
 }
@@ -400,8 +400,9 @@ PROPS["C17"] = {
             {"run": "^TestConcurrent$", "checks": 600, "shards": 10, "race": True},
         ],
         "thorough": [
+            {"run": "^TestPoolRace$", "shards": 2, "race": True, "timeout": 3000},
             {"run": "^TestSequential$", "checks": 160000, "shards": 6},
-            {"run": "^TestConcurrent$", "checks": 40000, "shards": 10, "race": True, "timeout": 7000},
+            {"run": "^TestConcurrent$", "checks": 20000, "shards": 10, "race": True, "timeout": 7000},
         ],
     },
 }
@@ -435,12 +436,12 @@ PROPS["C04"] = {
         "thorough": [
             {"run": "^TestWalkCatalogue$", "shards": 16, "timeout": 9000},
             {"run": "^TestWireCheap$", "checks": 120000, "shards": 6},
-            {"run": "^TestWireCMP$", "checks": 1600, "shards": 16, "timeout": 9000},
-            {"run": "^TestDeviations$", "checks": 640, "shards": 16, "timeout": 9000},
+            {"run": "^TestWireCMP$", "checks": 640, "shards": 16, "timeout": 9000},
+            {"run": "^TestDeviations$", "checks": 400, "shards": 16, "timeout": 9000},
             {"run": "^TestCtDeviations$", "shards": 16, "timeout": 9000},
             {"run": "^TestSigmaShare$", "shards": 16, "timeout": 9000},
             {"run": "^TestEquivocationCheap$", "checks": 30000, "shards": 4},
-            {"run": "^TestEquivocationCMP$", "checks": 320, "shards": 16, "timeout": 9000},
+            {"run": "^TestEquivocationCMP$", "checks": 160, "shards": 16, "timeout": 9000},
         ],
     },
 }
@@ -472,11 +473,11 @@ PROPS["C03"] = {
         ],
         "thorough": [
             {"run": "^TestEquivocationCheap$", "checks": 30000, "shards": 4},
-            {"run": "^TestEquivocationCMP$", "checks": 320, "shards": 16, "timeout": 9000},
+            {"run": "^TestEquivocationCMP$", "checks": 160, "shards": 16, "timeout": 9000},
             {"run": "^TestWalk$", "shards": 16, "timeout": 9000},
             {"run": "^TestCtDeviations$", "shards": 16, "timeout": 9000},
             {"run": "^TestCheap$", "checks": 120000, "shards": 6},
-            {"run": "^TestCMP$", "checks": 1600, "shards": 16, "timeout": 9000},
+            {"run": "^TestCMP$", "checks": 640, "shards": 16, "timeout": 9000},
         ],
     },
 }
@@ -570,7 +571,7 @@ PROPS["C09"] = {
         ],
         "thorough": [
             {"run": "^TestCommitContext$", "checks": 200000, "shards": 2},
-            {"run": "^TestTags$", "checks": 60000, "shards": 12},
+            {"run": "^TestTags$", "checks": 6000, "shards": 12},
             {"run": "^TestReplayCheap$", "checks": 30000, "shards": 6},
             {"run": "^TestReplayCMP$", "checks": 160, "shards": 16, "timeout": 9000},
             {"run": "^TestImpersonate$", "checks": 30000, "shards": 4},
